@@ -56,16 +56,31 @@ theorem C18_bind_fail_noop (s : St) (sid : Nat) (r : BindReq)
       · simp [ho]
       · simp [ho] at h
 
-/-- **unbind of a bound endpoint** removes exactly it from the bind set; connections (raws) are
-left untouched. -/
+/-- what `unbind sid e` does to one connection: a handshake still running on that endpoint ends
+with its listener (fix D14: the task waits for the listener's stop signal too); everything else —
+established connections, connections of other endpoints or sockets — is left as it is -/
+def unbindConn (sid e : Nat) (x : Nat × RawC) : Nat × RawC :=
+  if x.2.sock == sid && x.2.ep == e && x.2.hs == .running
+  then (x.1, { x.2 with hs := .failed, closedByLib := true }) else x
+
+/-- **unbind of a bound endpoint** removes exactly it from the bind set; … -/
 theorem C18_unbind (s : St) (sid e : Nat) (so : NSock) (hs : lookupN s.socks sid = some so)
     (he : e ∈ so.binds) :
     (unbind s sid (some e)).2 = .ok ∧
     (lookupN (unbind s sid (some e)).1.socks sid).map (·.binds) = some (so.binds.filter (· != e)) ∧
-    (unbind s sid (some e)).1.raws = s.raws := by
+    (unbind s sid (some e)).1.raws = s.raws.map (unbindConn sid e) := by
   have hc : so.binds.contains e = true := by simpa using he
   simp only [unbind, hs, hc, ↓reduceIte, lookupN_insertN_same, Option.map_some]
-  exact ⟨trivial, trivial, trivial⟩
+  exact ⟨trivial, trivial, rfl⟩
+
+/-- … **established connections keep working**: a registered connection (of any endpoint, this one
+included) is exactly as it was. -/
+theorem C18_unbind_keeps_established (s : St) (sid e : Nat) (so : NSock)
+    (hs : lookupN s.socks sid = some so) (he : e ∈ so.binds) (x : Nat × RawC) (hx : x ∈ s.raws)
+    (hreg : x.2.hs = .registered) : x ∈ (unbind s sid (some e)).1.raws := by
+  rw [(C18_unbind s sid e so hs he).2.2]
+  refine List.mem_map.2 ⟨x, hx, ?_⟩
+  simp [unbindConn, hreg]
 
 /-- … and no other socket's listeners are touched. -/
 theorem C18_unbind_only_it (s : St) (sid j : Nat) (e : Option Nat) (hj : j ≠ sid) :
